@@ -315,6 +315,8 @@ def lift(v, ty: Ty | None = None) -> SV:
         v = v.value
     if isinstance(v, str):
         return SV(TName, name_lit(v))
+    if isinstance(v, (list, tuple)) and not v and ty is not None and ty.kind == "dict":
+        return dict_empty(ty)  # an empty container used where a mapping is expected (only membership is asked)
     if isinstance(v, (list, tuple)):
         if ty is None or ty.kind != "seq":
             if not v:
